@@ -405,6 +405,20 @@ func StringForModel(term string, model map[string]string) string {
 	}
 	bl, _ := get("(blen " + term + ")")
 	rl, _ := get("(rlen " + term + ")")
+	// simple anchored patterns ("^a"): honour the model's match outcome
+	internMu.Lock()
+	pats := append([]string{}, patByID...)
+	internMu.Unlock()
+	for k, p := range pats {
+		if len(p) == 2 && p[0] == '^' {
+			raw, ok := model[fmt.Sprintf("(M!%d %s)", k, term)]
+			if ok {
+				if mv, err := parseModelValue(raw); err == nil && mv.B && rl >= 1 {
+					return string(p[1]) + synthString(int(bl)-1, int(rl)-1)
+				}
+			}
+		}
+	}
 	return synthString(int(bl), int(rl))
 }
 
